@@ -38,6 +38,7 @@ RULE = ("One evaluation = one simulated transfer in which the sender's offer "
         "the name or a zip member was hostile, or something pre-existed at "
         "the destination. Distinct: event-log digests + generated inputs "
         "among non-trivial runs.")
+RULE += (' Names include non-NFC forms and compatibility look-alikes of existing files; in 2/5 of file runs somebody else creates the announced destination (directory or file) while the transfer is under way.')
 LEVEL_TEXT = ("Seeded exploration over generated inputs/configurations. "
               "allowed := the announced destination (cwd/basename, the "
               "--output-file target, or target-dir/basename) and, for "
